@@ -14,6 +14,7 @@ package main
 import (
 	"bytes"
 	"fmt"
+	"os"
 	"runtime"
 	"strconv"
 	"strings"
@@ -27,6 +28,8 @@ import (
 )
 
 func init() { vh.Register("C10", genC10) }
+
+var onlyFamily string
 
 func main() { vh.Main() }
 
@@ -105,7 +108,11 @@ func quiescent(d []ginfo) bool {
 
 // settle waits until no goroutine of the library or the harness can run.
 func settle() ([]ginfo, error) {
-	deadline := time.Now().Add(5 * time.Second)
+	// The bound is generous and the polling backs off: every dump stops the world, and on a machine
+	// with far more runnable threads than cores a goroutine that is merely waiting for a processor
+	// was once seen "runnable" for 5 s while this loop kept stopping the world (thorough tier, load
+	// average 60 on 16 cores).  A goroutine that really spins stays runnable for the whole bound.
+	deadline := time.Now().Add(20 * time.Second)
 	for i := 0; ; i++ {
 		runtime.Gosched()
 		d := dump()
@@ -124,10 +131,17 @@ func settle() ([]ginfo, error) {
 					fmt.Fprintf(&sb, "%d:%s ", g.id, g.state)
 				}
 			}
-			return d, fmt.Errorf("no quiescence within 5s: %s", sb.String())
+			return d, fmt.Errorf("no quiescence within 20s: %s", sb.String())
 		}
 		if i > 20 {
-			time.Sleep(50 * time.Microsecond)
+			pause := 50 * time.Microsecond
+			if i > 200 {
+				pause = time.Millisecond
+			}
+			if i > 1000 {
+				pause = 10 * time.Millisecond
+			}
+			time.Sleep(pause)
 		}
 	}
 }
@@ -253,7 +267,7 @@ type gen struct {
 }
 
 func genC10(o *vcoq.Out, r *vcoq.Rand, tier string) error {
-	o.Header = "From SC Require Import Base.Prelude Bus.Bus Bus.Pipe Bus.PipeJudge Bus.C10Judge."
+	o.Header = "From SC Require Import Base.Prelude Bus.Bus Bus.Pipe Bus.PipeJudge Bus.Res Bus.ResJudge Bus.ShapeJudge Bus.C10Judge."
 	o.CaseType = "c10case"
 	o.Judge = "judge"
 	o.Shard = 130
@@ -264,6 +278,23 @@ func genC10(o *vcoq.Out, r *vcoq.Rand, tier string) error {
 		nScript, nPipe, nFree = 30000, 18000, 2000
 	}
 	defer verifhook.Set(nil)
+	// C10_ONLY=shape|bus|pipe|res|race|free restricts the run to one family (debugging aid only;
+	// bin/check never sets it)
+	if only := os.Getenv("C10_ONLY"); only != "" {
+		if only != "bus" {
+			nScript = 0
+		}
+		if only != "pipe" {
+			nPipe = 0
+		}
+		if only != "free" {
+			nFree = 0
+		}
+		onlyFamily = only
+	}
+	if err := g.shapeCase(); err != nil {
+		return fmt.Errorf("source shape: %w", err)
+	}
 	// every case that runs into a bound costs seconds: after a few of them the rest of the run
 	// adds nothing (the failing inputs are already recorded)
 	const maxHard = 3
@@ -277,9 +308,24 @@ func genC10(o *vcoq.Out, r *vcoq.Rand, tier string) error {
 			return fmt.Errorf("pipe script %d: %w", i, err)
 		}
 	}
+	nRes := 450
+	if tier == "thorough" {
+		nRes = 6000
+	}
+	if onlyFamily != "" && onlyFamily != "res" {
+		nRes = 0
+	}
+	for i := 0; i < nRes && g.hard < 2*maxHard; i++ {
+		if err := g.resScript(i); err != nil {
+			return fmt.Errorf("res script %d: %w", i, err)
+		}
+	}
 	nRace := 250
 	if tier == "thorough" {
 		nRace = 3000
+	}
+	if onlyFamily != "" && onlyFamily != "race" {
+		nRace = 0
 	}
 	for i := 0; i < nRace && g.hard < 3*maxHard; i++ {
 		if err := g.gcRace(i); err != nil {
